@@ -21,6 +21,7 @@ RULES = {
     'R3': 'no effect (with_state_mut, msg_cycles_accept, inter-canister call) before the gates',
     'R4': 'WRITERS of the announced-header bookkeeping are the three bookkeeping functions',
     'R5': 'EXPR/TABLE of the announced-header height bookkeeping the sync gate reads',
+    'R6': 'every state field the three gates read is carried across upgrades (serialised, or re-attached stable memory)',
 }
 ASSUMPTIONS = ['a trap rolls back all state changes of the message (IC semantics); R3 shows that nothing precedes the gates anyway']
 
@@ -129,6 +130,7 @@ def run(ctx):
     r2(ctx, vfns)
     r4(ctx)
     r5(ctx)
+    r6(ctx, vfns)
 
 
 def r2(ctx, vfns):
@@ -269,3 +271,29 @@ def r5(ctx):
     if f:
         r = ex(prog, f).local(0)
         ctx.check(P.call(NB + 'get_max_height', P.field('next_block_headers', P.param('self')))(r), 'R5', 'max-height-accessor', f, 'the sync gate reads NextBlockHeaders::get_max_height', 'accessor = %s' % show(r))
+
+
+def r6(ctx, vfns):
+    """gate inputs survive upgrades: fields read in REACH(verifiers) that the serialiser omits must be
+    stable-memory backed or rebuilt (evidence table of C09)"""
+    import json, os
+    from rules import c09
+    from sa.dataflow import readers
+    prog = ctx.prog
+    reach = prog.reach(list(vfns.values()))
+    cov = c09.coverage(prog)
+    spec = json.load(open(c09.SPEC))['fields'] if os.path.exists(c09.SPEC) else []
+    evid = {(x['adt'], x['field']): x for x in spec}
+    n = 0
+    for adt, info in sorted(cov.items()):
+        for f in info['fields']:
+            if not readers(prog, adt, f, list(reach.values())):
+                continue
+            n += 1
+            if f in info['omitted'] and (adt, f) not in evid:
+                ctx.bad('R6', 'gate-input-lost-at-upgrade:%s.%s' % (adt.rsplit('::', 1)[-1], f), prog.adts[adt]['file'] + ':%d' % prog.adts[adt]['line'],
+                        'field `%s` of %s is read by the access gates but is not carried across an upgrade: after post_upgrade the gates decide on a default value '
+                        '(e.g. forgotten announced headers make an unsynced canister answer)' % (f, adt))
+    ctx.floor('R6', 'state fields read by the gates', n, 6)
+    if not any(o.rule == 'R6' and o.status != 'discharged' and not o.key.startswith('floor') for o in getattr(ctx, 'obs', [])):
+        ctx.ok('R6', 'gate-inputs-survive-upgrades', '', 'all %d state fields read by the three gates are serialised (or backed by stable memory)' % n)
